@@ -195,6 +195,15 @@ class StmtMixin:
                 outs.append((q, out))
         return outs
 
+    def st_FunctionDef(self, s, p):
+        """A nested helper. It is not inlined: calls to it are applications of an uninterpreted function of its arguments
+        (assumed: pure, total, deterministic). Helpers that assign to enclosing variables are rejected."""
+        for n in ast.walk(s):
+            if isinstance(n, (ast.Nonlocal, ast.Global, ast.Yield, ast.YieldFrom)):
+                raise Unsupported(f"nested function {s.name} is not pure")
+        self.local_defs[s.name] = s
+        return [(p, "next")]
+
     def st_With(self, s, p):
         raise Unsupported("with statement")
 
@@ -377,7 +386,14 @@ class StmtMixin:
                         in_range=lambda pos, q: z3.And(lo <= pos.t, pos.t < hi),
                         elem=lambda pos, q: pos, advance=lambda pos, el, q: T.sv_int(pos.t + 1),
                         end=lambda q: T.sv_int(hi2))
-        v = self.ev(e, p)
+        items_of = None
+        if isinstance(e, ast.Call) and isinstance(e.func, ast.Attribute) and e.func.attr == "items" and not e.args:
+            m = self.ev(e.func.value, p)
+            if isinstance(m.ty, T.Map):
+                items_of = m
+                v = T.scalar(T.Set(m.ty.k), m.dom)
+        if items_of is None:
+            v = self.ev(e, p)
         if isinstance(v.ty, T.Opt):
             self._raise_if(p, v.is_none, "TypeError", f"line {e.lineno}")
             v = v.val
@@ -399,9 +415,14 @@ class StmtMixin:
             def elem(pos, q):
                 x = fresh("cur", st.e.sort())
                 q.assume(z3.And(v.t[x], z3.Not(pos.t[x])))
+                q.env["_cur_key"] = T.scalar(st.e, x)
+                if items_of is not None:
+                    pt = T.Pair(items_of.ty.k, items_of.ty.v)
+                    return T.scalar(pt, pt.mk(x, items_of.val[x]))
                 return T.scalar(st.e, x)
             def advance(pos, el, q):
-                return self.named(T.scalar(st, z3.Store(pos.t, el.t, True)), q, "done")
+                key = q.env.pop("_cur_key").t if "_cur_key" in q.env else el.t
+                return self.named(T.scalar(st, z3.Store(pos.t, key, True)), q, "done")
             return dict(kind="coll", value=v, start=T.scalar(st, z3.K(st.e.sort(), z3.BoolVal(False))),
                         fresh_pos=lambda: T.scalar(st, fresh("done", st.sort())),
                         in_range=in_range, elem=elem, advance=advance, end=lambda q: v)
@@ -409,13 +430,17 @@ class StmtMixin:
             bt = v.ty
             def in_range(pos, q):
                 x = fresh("x", bt.e.sort())
-                return z3.ForAll([x], z3.And(0 <= pos.t[x], pos.t[x] <= v.t[x]), patterns=[pos.t[x]])
+                return z3.And(z3.ForAll([x], z3.And(0 <= pos.t[x], pos.t[x] <= v.t[x]), patterns=[pos.t[x]]),
+                              0 <= bt.blen()(pos.t), bt.blen()(pos.t) <= bt.blen()(v.t))
             def elem(pos, q):
                 x = fresh("cur", bt.e.sort())
                 q.assume(pos.t[x] < v.t[x])
+                q.assume(bt.blen()(pos.t) < bt.blen()(v.t))    # there is a next element: fewer consumed than there are
                 return T.scalar(bt.e, x)
             def advance(pos, el, q):
-                return self.named(T.scalar(bt, z3.Store(pos.t, el.t, pos.t[el.t] + 1)), q, "done")
+                nv = self.named(T.scalar(bt, z3.Store(pos.t, el.t, pos.t[el.t] + 1)), q, "done")
+                q.assume(bt.blen()(nv.t) == bt.blen()(pos.t) + 1)
+                return nv
             return dict(kind="coll", value=v, start=T.scalar(bt, z3.K(bt.e.sort(), z3.IntVal(0))),
                         fresh_pos=lambda: T.scalar(bt, fresh("done", bt.sort())),
                         in_range=in_range, elem=elem, advance=advance, end=lambda q: v)
